@@ -932,7 +932,7 @@ func c12SCPool(r *rand.Rand, n int) []c12SCKey {
 	var out []c12SCKey
 	for len(out) < n {
 		q := c12Queries[r.Intn(len(c12Queries))]
-		o := cache.SearchOptions{Limit: []int{0, 5, 10}[r.Intn(3)]}
+		o := cache.SearchOptions{Limit: []int{0, 5, 10, 1, 2}[r.Intn(5)]} // (what is stored under a request may be longer than its limit: the cache stores, it does not judge)
 		switch r.Intn(7) {
 		case 0:
 			o.PipelineOnly = true
@@ -969,6 +969,7 @@ func engineLRUModel(ctx *Ctx) {
 
 	c12Manager(ctx)
 	c12Big(ctx)
+	c12RealPause(ctx)
 
 	for i := 0; i < n; i++ {
 		hseed := r.Int63()
